@@ -38,7 +38,7 @@ func vRunCase(c vCase) (out vOut) {
 	vRealtime = c.Realtime
 	vTier = c.Tier
 	vHeldRanks, vMainGoid, vNoBlockMsg, vSpawned = nil, vGoid(), "", nil
-	vGoLive, vPreemptBody = false, nil
+	vGoLive, vPreemptBody, vPreemptIgnoreRank = false, nil, -1
 	vOtherMu.Lock()
 	vOtherRanks, vAsyncMsg = map[uint64]*[]int{}, ""
 	vOtherMu.Unlock()
